@@ -22,7 +22,7 @@ case "$1" in
   try)
     patch=$2; prop=$3; tier=${4:-quick}
     git -C "$ST/repo" reset -q --hard
-    git -C "$ST/repo" apply "$patch" || { echo "patch does not apply"; exit 2; }
+    [ -s "$patch" ] && { git -C "$ST/repo" apply "$patch" || { echo "patch does not apply"; exit 2; }; }
     sync_engine
     (cd "$ST/engine" && CARGO_TARGET_DIR="$ST/target" cargo build --offline > "$ST/build.log" 2>&1) || { echo "build failed"; tail -20 "$ST/build.log"; git -C "$ST/repo" reset -q --hard; exit 2; }
     (cd "$ST/v" && "$ST/target/debug/zyv" check "$prop" "$tier" > "$ST/out.txt" 2>&1); rc=$?
@@ -33,7 +33,7 @@ case "$1" in
     # C17 needs both engines: the schedule explorer (zys) and the LSP protocol part of zyv
     patch=$2; tier=${3:-quick}
     git -C "$ST/repo" reset -q --hard
-    git -C "$ST/repo" apply "$patch" || { echo "patch does not apply"; exit 2; }
+    [ -s "$patch" ] && { git -C "$ST/repo" apply "$patch" || { echo "patch does not apply"; exit 2; }; }
     sync_engine
     rsync -a --delete --exclude target /verif/sched "$ST/"
     grep -rl "/repo/" "$ST/sched/zys/Cargo.toml" | xargs -r sed -i "s|/repo/|$ST/repo/|g"
